@@ -46,7 +46,9 @@ def _case(draw):
         cfg["cMaxIterations"] = draw(st.one_of(st.integers(20, 40), st.integers(1, 4)))
     return {"shot": spec, "D": Dz, "config": cfg, "via": draw(st.sampled_from(["set_weapon_zero", "barrel_elevation_for_target"])),
             # history: the calculator may have been used before for a shot along another sight line
-            "used_before_look_deg": draw(st.one_of(st.none(), st.floats(-50.0, 50.0)))}
+            "used_before_look_deg": draw(st.one_of(st.none(), st.floats(-50.0, 50.0))),
+            # history: an attempt at a target far out of reach on the same calculator and the same Shot object comes first
+            "fail_first_ft": draw(st.one_of(st.none(), st.none(), st.none(), st.none(), st.none(), st.floats(6000.0, 12000.0)))}
 
 
 def _height_at(calc, spec, elev_total, Rh):
@@ -76,6 +78,15 @@ def check(case):
         build.fire(calc, build.shot(dict(spec, look=case["used_before_look_deg"] * gen.DEG, winds=None)), 40.0, 20.0)
         r.label("calculator-used-before")
     sh = build.shot(spec)
+    if case.get("fail_first_ft") is not None:
+        snap0 = build.snapshot_shot(sh)
+        try:
+            calc.barrel_elevation_for_target(sh, D.Foot(case["fail_first_ft"]))
+            r.label("far-attempt:succeeded")
+        except (pb.ZeroFindingError, pb.RangeError):
+            r.label("far-attempt:failed")
+        if build.snapshot_shot(sh) != snap0:
+            r.bad("C02:elevation-query-mutates-shot", "an elevation query for a far target changed the shot")
     before = build.snapshot_shot(sh)
     zero_unit_before = sh.weapon.zero_elevation.units
     raised = None
